@@ -542,6 +542,22 @@ func runC16(c *Ctx) {
 	}
 
 	domain := c16Domain
+	if !c.Thorough() {
+		// quick tier: the boundary-relevant core plus two seed-chosen others (78 objects per pool)
+		core := []string{"-3", "0", "5", "5.", "5(uint64)", `"a"`, `"b"`, "null", "null(int64)", "MISSING"}
+		rest := []string{"2", "5.5", "9", `""`, "null(string)"}
+		c.Rng.Shuffle(len(rest), func(i, j int) { rest[i], rest[j] = rest[j], rest[i] })
+		pick := map[string]bool{rest[0]: true, rest[1]: true}
+		for _, x := range core {
+			pick[x] = true
+		}
+		domain = nil
+		for _, x := range c16Domain { // keep compare order
+			if pick[x] {
+				domain = append(domain, x)
+			}
+		}
+	}
 	atoms := c16AllAtoms(c, c16Lits)
 	var trees []*c16Pred
 	for i := 0; i < c.N(150, 3000); i++ {
